@@ -114,6 +114,7 @@ class ProbeConnection(Connection):
 
     def forward(self, *inputs, **kwargs):
         x = scalar_of(inputs[0], (self.batch_, *self.inshape_))
+        self.extra_seen = [float(t.reshape(-1)[0]) for t in inputs[1:]]     # additional positional arguments, if any
         self.log.append(("c", self.idx, x, len(inputs), dict(kwargs)))
         m = float(self.synapse.mem)
         w = float(self.weight_)
@@ -210,6 +211,12 @@ class LayerImpl:
                           feedback_out_transform=_tr(True, PT[2]),
                           lateral_in_transform=lambda v, **k: (v + IT[0],),
                           feedback_in_transform=lambda v, **k: (v + IT[1],))
+            if self.tr:
+                # (with transforms also: the layer's own component names instead of the defaults)
+                kw.update(feedfwd_connection_name="ffc", lateral_connection_name="latc", feedback_connection_name="fbc",
+                          feedfwd_neuron_name="ffn", feedback_neuron_name="fbn")
+            self.rec_names = (kw.get("feedfwd_connection_name", "feedfwd"), kw.get("lateral_connection_name", "lateral"),
+                              kw.get("feedback_connection_name", "feedback"))
             self.layer = RecurrentSerial(self.conns[0], self.conns[1], self.conns[2], self.neurs[0], self.neurs[1], **kw)
             self.extshape = [(4,)]
         else:
@@ -265,11 +272,18 @@ class LayerImpl:
             ys = [outs[f"n{n + 1}"] for n in range(self.nn)]
             mids = [mid.get(f"c{c + 1}") for c in range(self.nc)]
         else:
+            # additional positional arguments for the lateral / feedback connections on every other step
+            extra = len(self.hist) % 2 == 1
+            xa = dict(lateral_connection_args=(torch.full((1,), 7.0),), feedback_connection_args=(torch.full((1,), 9.0), torch.full((1,), 11.0))) \
+                if extra else {}
             (y1, y2), mid = self.layer(ins[0], feedfwd_connection_kwargs={"tag": 201}, lateral_connection_kwargs={"tag": 202},
                                        feedback_connection_kwargs={"tag": 203}, feedfwd_neuron_kwargs={"tag": 101},
-                                       feedback_neuron_kwargs={"tag": 102}, capture_intermediate=True)
+                                       feedback_neuron_kwargs={"tag": 102}, capture_intermediate=True, **xa)
             ys = [y1, y2]
-            mids = [mid.get("feedfwd"), mid.get("lateral"), mid.get("feedback")]
+            mids = [mid.get(nm) for nm in self.rec_names]
+            want_extra = [[], [7.0], [9.0, 11.0]] if extra else [[], [], []]
+            if [c.extra_seen for c in self.conns] != want_extra:
+                return {"t": "err", "e": "ArgRouting"}
         # keyword arguments are routed to the component they were given for, and to no other
         for rec in self.log:
             want = {"tag": (100 if rec[0] == "n" else 200) + rec[1]}
